@@ -25,20 +25,23 @@ CONSTANTS
   Gates,       \* the application may block in a handler until released
   Prio,        \* environment steps only when no internal step is enabled (replay)
   Weak_LocalClientPerConnMutex,   \* NewLocalClient(nil, app) per connection: four mutexes
-  Weak_SyncWithoutMutex           \* a *Sync method forgets the lock
+  Weak_SyncWithoutMutex,          \* a *Sync method forgets the lock
+  Weak_CallbackOutsideMutex       \* an *Async method unlocks before it runs the global callback
 
 VARIABLES
   holder,   \* shared mutex: 0 or the call holding it;  with Weak_LocalClientPerConnMutex: per connection
   cl,       \* per connection: [pc, kind, call, gate]
   inapp,    \* calls inside an application handler
   gated,    \* calls blocked at a gate inside the application, in order of arrival
+  cbopen,   \* calls whose global callback is running
+  cbgated,  \* calls blocked at a gate inside their global callback, in order of arrival
   appseq,   \* calls in the order the application saw them
   cbseq,    \* calls in the order their global callback ran
   ncalls,
   act
-vars == <<holder, cl, inapp, gated, appseq, cbseq, ncalls, act>>
+vars == <<holder, cl, inapp, gated, cbopen, cbgated, appseq, cbseq, ncalls, act>>
 
-Idle == [pc |-> "idle", kind |-> "-", call |-> 0, gate |-> FALSE]
+Idle == [pc |-> "idle", kind |-> "-", call |-> 0, gate |-> "none"]
 NoMutexKind(k) == k \in {"FlushSync", "FlushAsync", "EchoSync"}
 MutexOf(c) == IF Weak_LocalClientPerConnMutex THEN c ELSE "shared"
 Lockless(c) == Weak_SyncWithoutMutex /\ cl[c].kind = "Sync"
@@ -46,16 +49,18 @@ Lockless(c) == Weak_SyncWithoutMutex /\ cl[c].kind = "Sync"
 Init ==
   /\ holder = [m \in Conns \cup {"shared"} |-> 0]
   /\ cl = [c \in Conns |-> Idle]
-  /\ inapp = {} /\ gated = << >> /\ appseq = << >> /\ cbseq = << >> /\ ncalls = 0
+  /\ inapp = {} /\ gated = << >> /\ cbopen = {} /\ cbgated = << >> /\ appseq = << >> /\ cbseq = << >> /\ ncalls = 0
   /\ act = [name |-> "Init"]
 
 StartCall(c, kind, gate) ==
   /\ cl[c].pc = "idle" /\ ncalls < MaxCalls /\ kind \in Kinds
-  /\ gate => (Gates /\ ~NoMutexKind(kind))
+  /\ gate \in {"none", "app", "cb"}
+  /\ gate # "none" => (Gates /\ ~NoMutexKind(kind))
+  /\ gate = "cb" => kind = "Async"
   /\ ncalls' = ncalls + 1
   /\ cl' = [cl EXCEPT ![c] = [pc |-> IF NoMutexKind(kind) THEN "ret" ELSE "lock", kind |-> kind, call |-> ncalls + 1, gate |-> gate]]
   /\ act' = [name |-> "StartCall", conn |-> c, kind |-> kind, call |-> ncalls + 1, gate |-> gate]
-  /\ UNCHANGED <<holder, inapp, gated, appseq, cbseq>>
+  /\ UNCHANGED <<holder, inapp, gated, cbopen, cbgated, appseq, cbseq>>
 
 \* app.mtx.Lock()
 Lock(c) ==
@@ -64,17 +69,17 @@ Lock(c) ==
      ELSE holder[MutexOf(c)] = 0 /\ holder' = [holder EXCEPT ![MutexOf(c)] = cl[c].call]
   /\ cl' = [cl EXCEPT ![c].pc = "app"]
   /\ act' = [name |-> "Lock", conn |-> c]
-  /\ UNCHANGED <<inapp, gated, appseq, cbseq, ncalls>>
+  /\ UNCHANGED <<inapp, gated, cbopen, cbgated, appseq, cbseq, ncalls>>
 
 \* app.Application.X(req): the handler is entered
 AppEnter(c) ==
   /\ cl[c].pc = "app"
   /\ inapp' = inapp \cup {cl[c].call}
   /\ appseq' = Append(appseq, cl[c].call)
-  /\ IF cl[c].gate THEN gated' = Append(gated, cl[c].call) /\ cl' = [cl EXCEPT ![c].pc = "ingate"]
-                   ELSE gated' = gated /\ cl' = [cl EXCEPT ![c].pc = "appdone"]
+  /\ IF cl[c].gate = "app" THEN gated' = Append(gated, cl[c].call) /\ cl' = [cl EXCEPT ![c].pc = "ingate"]
+                         ELSE gated' = gated /\ cl' = [cl EXCEPT ![c].pc = "appdone"]
   /\ act' = [name |-> "AppEnter", conn |-> c]
-  /\ UNCHANGED <<holder, cbseq, ncalls>>
+  /\ UNCHANGED <<holder, cbopen, cbgated, cbseq, ncalls>>
 
 ReleaseApp ==
   /\ gated # << >>
@@ -82,44 +87,64 @@ ReleaseApp ==
                       /\ cl' = [cl EXCEPT ![c].pc = "appdone"]
   /\ gated' = Tail(gated)
   /\ act' = [name |-> "ReleaseApp"]
-  /\ UNCHANGED <<holder, inapp, appseq, cbseq, ncalls>>
+  /\ UNCHANGED <<holder, inapp, cbopen, cbgated, appseq, cbseq, ncalls>>
 
 AppLeave(c) ==
   /\ cl[c].pc = "appdone"
   /\ inapp' = inapp \ {cl[c].call}
   /\ cl' = [cl EXCEPT ![c].pc = IF cl[c].kind = "Async" THEN "cb" ELSE "unlock"]
+  /\ holder' = IF Weak_CallbackOutsideMutex /\ cl[c].kind = "Async" /\ ~Lockless(c)
+                 THEN [holder EXCEPT ![MutexOf(c)] = 0] ELSE holder
   /\ act' = [name |-> "AppLeave", conn |-> c]
-  /\ UNCHANGED <<holder, gated, appseq, cbseq, ncalls>>
+  /\ UNCHANGED <<gated, cbopen, cbgated, appseq, cbseq, ncalls>>
 
-\* localClient.callback: app.Callback(req, res), still under the mutex
-Cb(c) ==
+\* localClient.callback: app.Callback(req, res) starts, still under the mutex
+CbEnter(c) ==
   /\ cl[c].pc = "cb"
+  /\ cbopen' = cbopen \cup {cl[c].call}
+  /\ IF cl[c].gate = "cb" THEN cbgated' = Append(cbgated, cl[c].call) /\ cl' = [cl EXCEPT ![c].pc = "cbgate"]
+                        ELSE cbgated' = cbgated /\ cl' = [cl EXCEPT ![c].pc = "cbdone"]
+  /\ act' = [name |-> "CbEnter", conn |-> c]
+  /\ UNCHANGED <<holder, inapp, gated, appseq, cbseq, ncalls>>
+
+ReleaseCb ==
+  /\ cbgated # << >>
+  /\ \E c \in Conns : /\ cl[c].call = Head(cbgated) /\ cl[c].pc = "cbgate"
+                      /\ cl' = [cl EXCEPT ![c].pc = "cbdone"]
+  /\ cbgated' = Tail(cbgated)
+  /\ act' = [name |-> "ReleaseCb"]
+  /\ UNCHANGED <<holder, inapp, gated, cbopen, appseq, cbseq, ncalls>>
+
+Cb(c) ==
+  /\ cl[c].pc = "cbdone"
   /\ cbseq' = Append(cbseq, cl[c].call)
+  /\ cbopen' = cbopen \ {cl[c].call}
   /\ cl' = [cl EXCEPT ![c].pc = "unlock"]
   /\ act' = [name |-> "Cb", conn |-> c]
-  /\ UNCHANGED <<holder, inapp, gated, appseq, ncalls>>
+  /\ UNCHANGED <<holder, inapp, gated, cbgated, appseq, ncalls>>
 
 Unlock(c) ==
   /\ cl[c].pc = "unlock"
-  /\ holder' = IF Lockless(c) THEN holder ELSE [holder EXCEPT ![MutexOf(c)] = 0]
+  /\ holder' = IF Lockless(c) \/ (Weak_CallbackOutsideMutex /\ cl[c].kind = "Async") THEN holder
+                 ELSE [holder EXCEPT ![MutexOf(c)] = 0]
   /\ cl' = [cl EXCEPT ![c] = Idle]
   /\ act' = [name |-> "Unlock", conn |-> c]
-  /\ UNCHANGED <<inapp, gated, appseq, cbseq, ncalls>>
+  /\ UNCHANGED <<inapp, gated, cbopen, cbgated, appseq, cbseq, ncalls>>
 
 \* FlushSync / FlushAsync / EchoSync return without touching mutex or application (Dev_NoMutex)
 Ret(c) ==
   /\ cl[c].pc = "ret"
   /\ cl' = [cl EXCEPT ![c] = Idle]
   /\ act' = [name |-> "Ret", conn |-> c]
-  /\ UNCHANGED <<holder, inapp, gated, appseq, cbseq, ncalls>>
+  /\ UNCHANGED <<holder, inapp, gated, cbopen, cbgated, appseq, cbseq, ncalls>>
 
-Internal == \E c \in Conns : Lock(c) \/ AppEnter(c) \/ AppLeave(c) \/ Cb(c) \/ Unlock(c) \/ Ret(c)
-Env == ReleaseApp \/ \E c \in Conns, k \in Kinds, g \in BOOLEAN : StartCall(c, k, g)
+Internal == \E c \in Conns : Lock(c) \/ AppEnter(c) \/ AppLeave(c) \/ CbEnter(c) \/ Cb(c) \/ Unlock(c) \/ Ret(c)
+Env == ReleaseApp \/ ReleaseCb \/ \E c \in Conns, k \in Kinds, g \in {"none", "app", "cb"} : StartCall(c, k, g)
 Next == Internal \/ ((Prio => ~ENABLED Internal) /\ Env)
 
 \* (5) LocalClientSerialises
 AppExclusive == Cardinality(inapp) <= 1
-CallbackUnderMutex == \A c \in Conns : cl[c].pc = "cb" => inapp = {} /\ \A d \in Conns \ {c} : cl[d].pc # "cb"
+CallbackUnderMutex == cbopen # {} => (inapp = {} /\ Cardinality(cbopen) = 1)
 LocalClientSerialises == AppExclusive /\ CallbackUnderMutex
 \* the callback of an Async call runs exactly once, after the application handled the request, before the call returns
 LocalCallbacks == /\ \A i, j \in DOMAIN cbseq : i # j => cbseq[i] # cbseq[j]
@@ -128,8 +153,9 @@ LocalCallbacks == /\ \A i, j \in DOMAIN cbseq : i # j => cbseq[i] # cbseq[j]
 \* observable projection (harness LObs lines)
 LProj == [busy  |-> {c \in Conns : cl[c].pc # "idle"},
           inapp |-> [i \in DOMAIN gated |-> "c" \o ToString(gated[i])],
+          incb  |-> [i \in DOMAIN cbgated |-> "c" \o ToString(cbgated[i])],
           atlock |-> {c \in Conns : cl[c].pc = "lock"},
           ncb   |-> Len(cbseq)]
 
-View == <<holder, cl, inapp, gated, appseq, cbseq, ncalls>>
+View == <<holder, cl, inapp, gated, cbopen, cbgated, appseq, cbseq, ncalls>>
 =============================================================================
